@@ -118,7 +118,11 @@ func (s *scLife) Configure(w *World) {
 	case "C14":
 		// closed loop: the checkpoint documents live in the streamed bucket, every checkpoint write comes back
 		// as a mutation; several groups may share the bucket; the workload is rich in reserved-prefix keys
-		c.MetaBucket, c.Metadata = c.Bucket, "couchbase"
+		elsewhere := t.Draw(5, nil) == 0 // the connector's documents in a file or a dedicated bucket: transaction records still sit in the streamed bucket
+		if !elsewhere || c.MetaBucket == "" && c.Metadata != "file" {
+			elsewhere = false
+			c.MetaBucket, c.Metadata = c.Bucket, "couchbase"
+		}
 		c.Faults = t.Draw(3, nil) == 0
 		if c.Faults {
 			c.W.ReplyErr = 2 // checkpoint writes answered with an error status: failed saves in the closed loop
@@ -138,6 +142,11 @@ func (s *scLife) Configure(w *World) {
 			s.groups = []string{names[a], names[b]}
 		default:
 			s.groups = []string{Pick(t, names, nil)}
+		}
+		if elsewhere && (len(s.groups) > 1 || c.Extra["dotted"] != "") {
+			c.MetaBucket, c.Metadata = c.Bucket, "couchbase"
+		} else if elsewhere {
+			c.Extra["metadata-elsewhere"] = "1"
 		}
 		c.Group = s.groups[0]
 	}
